@@ -222,8 +222,9 @@ CHECKS = {'C09': {'category': 'proof',
                  'attributed to that finding only when the model of the unchanged code reproduces the whole run.'},
  'C20': {'category': 'translation_validation',
          'note': 'variants are those instantiated by the harness clients, not the full trait matrix of test/unit.',
-         'technique': 'single-threaded operation sequences on every variant of every client judged against the strict Lean reference specifications by the verified checker; spec laws of update() as '
-                      'Lean theorems',
+         'technique': 'Lean 4: sequential corollaries of the proved machines (Props/C20Seq: a single-threaded complete run of each of 14 machines and of every flat-combining container returns exactly the '
+                      'results of the sequential specification; generic lemma: a sequential history is linearizable iff it is the run of the specification), tied by replaying single-threaded traces of the real '
+                      'code; single-threaded operation sequences on every variant of every client judged against the strict Lean reference specifications by the verified checker; spec laws of update()',
          'text': 'About 190 container variants x 2500 sequences per quick run; return values and payloads observed through functors are compared with Spec.map/fifo/bfifo/lifo/deque/maxpq. '
                  'size/empty/clear, functor call counts and disposer counts are only partly covered (named in the evidence).'},
  'C21': {'category': 'proof',
@@ -257,7 +258,7 @@ CHECKS = {'C09': {'category': 'proof',
                  "C18_avl, C18_avl_strict, C18_splitlist state what well-formedness implies; both libraries' check_consistency() are transcribed and Bronson's is proved vacuous for balance "
                  '(libCheck_eq_localOrder). AVL balance is judged on structural heights (shapeBalanced_iff). Props/C18Reach proves reachable => well-formed for every reachable state of the '
                  'MichaelList, LazyList and SplitListSet machines and for level 0 of the SkipListSet machine (C18_michael_reachable_wf, C18_lazy_reachable_wf / _quiescent, C18_splitlist_reachable_wf, '
-                 'C18_skiplist_reachable_wf_partial); for Michael and Lazy the real final structure of every replayed case is compared with the rendering of the final machine state.',
+                 'C18_skiplist_reachable_wf_partial); C18_splitlist_quiescent_size (item counter = number of keys), C18_splitlist_quiescent_table_dump (the bucket-table dump is well-formed at quiescence); for Michael, Lazy and SplitList the real final structure of every replayed case is compared with the rendering of the final machine state. Skip-list upper levels: C15_skiplist_links_forward, C15_skiplist_levels_nondecreasing, C15_invB_skipWf.',
          'note': 'SC interleavings only (threads serialised by a baton at every atomic operation); memory orders not modelled; explored schedules only for the history/oracle/trace ties; Lean kernel '
                  "+ propext/Classical.choice/Quot.sound. 'Every reachable quiescent state is well-formed' is a theorem only for the machines named in the text (skip list: level 0 only); for EllenBinTree, Bronson, IterableList and the upper skip-list levels it is decided on explored schedules. Known finding: Bronson can be left imbalanced "
                  'by 2 at quiescence.'},
